@@ -26,8 +26,12 @@ CLAIMED["C18"] = dict(
         technique="deterministic simulation: seeded two-owner mutation histories over source and derived object, structural probe for shared nodes, snapshot/equality oracles after every step",
         text="Seeded search over two-owner histories: for every element kind and derivation the property names (copy, x*M, abs, Path(x), Path(subpath), Group copy) up to 6 public mutations are interleaved on source and result, a structural probe places the first mutation on any node reachable from both; after each step the untouched owner's public snapshot and its == against a frozen deep copy must be unchanged; for +, -, ~ only what the property states (operands untouched by evaluation) is demanded. Sampling over kinds x derivations x mutation sequences, not proof.",
         note="Trusted: the snapshot covers the public attributes that carry geometry, transform, paint, values and children; value-at-derivation for x*M and abs(x) is differential against copy(x) followed by the in-place form; SVG (document root) and constructor-from-object on value types are outside the property's list and are not exercised.")
+CLAIMED["C10"] = dict(
+        level="fault_enumeration", ref="DESIGN.md 5.2",
+        technique="deterministic simulation with fault injection on attribute values and on stream delivery: seeded faults x independently scheduled short-read delivery, differential isolation oracle against the document without the offending elements, deterministic step budget",
+        text="1-3 attribute faults per run from a grammar of syntactically malformed values (path data, transform, colour, length, points, viewBox, number) and use retargeting (missing, self, ancestor, mutual cycle), biased to containers, referenced elements and first/last children, injected into generated documents; the damaged document and the document without the offending elements reach SVG.parse through independently drawn delivery schedules (StringIO, BytesIO, short-read byte/text streams incl. 1-byte reads, simulated file with short raw reads). Oracles: no exception, bounded line steps, identity of every element outside the exempt set. Faults and schedules are sampled per seed, not enumerated exhaustively.",
+        note="Trusted: the exempt-set computation over the generator's own tree; observation through abs(Path(copy)) of every rendered shape plus text/title/desc content; the fault grammar contains only syntactically malformed values (zero/negative sizes are legal and are not injected); step budget 20x the pinned tree's maximum.")
 BUILDING = {
- "C10": "check under construction (claimed in DESIGN.md 5.2; not yet registered, so not claimed at this commit)",
  "C20": "check under construction (claimed in DESIGN.md 5.6; not yet registered, so not claimed at this commit)",
 }
 
